@@ -5,7 +5,8 @@ Every task applies one patch to its own scratch worktree of /repo's HEAD (under 
 never touched) and runs the checks against it with evidence and witnesses switched off:
   seeded change  -> the check of its property, quick tier, then thorough if quick is silent (exit 1 = DETECTED)
   refactoring    -> all 20 checks, quick tier (any exit != 0 = false alarm)
-Usage: tools/corpus_eval.py [--jobs N] [--only-seeds] [--only-refactors] [--ids a,b,c]"""
+Usage: tools/corpus_eval.py [--jobs N] [--only-seeds] [--only-refactors] [--ids a,b,c]
+(--ids after a complete run re-evaluates only those items and rewrites both tables from the stored rows)"""
 import json
 import os
 import subprocess
@@ -85,9 +86,16 @@ def main():
         for kind, ident, verdict, info in ex.map(task, work):
             rows[(kind, ident)] = (verdict, info)
             print(kind, ident, verdict, json.dumps(info)[:300], flush=True)
-    json.dump({f"{k}:{i}": v for (k, i), v in rows.items()}, open("/tmp/corpus_eval_rows.json", "w"))
-    if ids is not None:
+    store = os.environ.get("CORPUS_ROWS", "/tmp/corpus_eval_rows.json")
+    if ids is not None and os.path.exists(store):
+        # partial run: the rows of the last complete run are kept for every other item
+        old = {tuple(k.split(":", 1)): tuple(v) for k, v in json.load(open(store)).items()}
+        old.update(rows)
+        rows = {k: v for k, v in old.items()
+                if os.path.exists(os.path.join(HERE, "seeded" if k[0] == "seed" else "refactors", k[1], "patch.diff"))}
+    elif ids is not None:
         return
+    json.dump({f"{k}:{i}": v for (k, i), v in rows.items()}, open(store, "w"))
     seeds = sorted(i for k, i in rows if k == "seed")
     if seeds:
         lines = ["Every change was produced by an independent sub-agent that saw only the property text and its own scratch worktree, "
